@@ -288,13 +288,13 @@ def run(tier: str, seed: int, t0: float) -> int:
                 out.append(Violation(v[4:], api, detail, {"schema": name, "expr": exprparse.render(exprs[e["k"] - 1]), "event": e}, sig))
     for key, least in (("Fill:ok", 3000), ("Wrap:ok", 1000), ("CreateAndFill:ok", 200), ("DefaultType:ok", 100)):
         if stats.counts.get(key, 0) < least:
-            raise core.MachineryError(f"vacuity gate: {key}={stats.counts.get(key, 0)} < {least}")
+            core.vacuity(out, f"vacuity gate: {key}={stats.counts.get(key, 0)} < {least}")
     some_fill = sum(1 for (_, b, _, _) in jobs for e in b.events if e["ev"] == "Fill" and e["res"]["kind"] == "some" and e["res"]["types"])
     none_fill = sum(1 for (_, b, _, _) in jobs for e in b.events if e["ev"] == "Fill" and e["res"]["kind"] == "none")
     some_wrap = sum(1 for (_, b, _, _) in jobs for e in b.events if e["ev"] == "Wrap" and e["res"]["kind"] == "some" and e["res"]["types"])
     stats.counts.update({"fill_nonempty": some_fill, "fill_none": none_fill, "wrap_nonempty": some_wrap})
     if some_fill < 200 or none_fill < 200 or some_wrap < 50:
-        raise core.MachineryError(f"vacuity gate: fill_nonempty={some_fill} fill_none={none_fill} wrap_nonempty={some_wrap}")
+        core.vacuity(out, f"vacuity gate: fill_nonempty={some_fill} fill_none={none_fill} wrap_nonempty={some_wrap}")
     return core.finish("C15", tier, seed, stats, out, t0,
                        rule="(expression, reachable match state by witness prefix, following fragment <= 2 nodes, to_end, start index) for fill_before; "
                             "(state, target type) for find_wrapping; default_type per state; create_and_fill per node type x small contents; "
